@@ -143,9 +143,28 @@ def rule_one_matcher(ctx):
     cls = ctx.prog.cls("nglob.NamedGlob")
     s3 = _norm(ast.unparse(cls.node))
     ctx.check("return convert_nglob_to_glob(self._pattern, self._subs)" in s3 and "return re.compile(convert_nglob_to_regex(self._pattern, self._subs))" in s3, "nglob.NamedGlob", "scan pattern and matcher derive from the same (pattern, subs)", "the two derived attributes use different inputs", "same inputs")
-    mg = ctx.prog.func("workflow.Workflow.matches_any_glob")
-    ctx.check("re.compile(regex).fullmatch(path)" in ast.unparse(mg.node), mg.fq, "stored regex is applied with fullmatch", "partial matches count", "fullmatch")
-    ctx.check("self._regex.fullmatch(path)" in ast.unparse(ctx.prog.func("nglob.NamedGlob._match_values").node), "nglob.NamedGlob._match_values", "matcher uses fullmatch", "partial matches count", "fullmatch")
+    # every application of a registration's regex to a path is a fullmatch (the three sites are siblings: the
+    # NamedGlob matcher, the watcher's relevance test and the product check at declaration time)
+    n = 0
+    for modname in ("workflow", "nglob", "startup", "director", "watcher", "clean"):
+        mod = ctx.prog.module(modname)
+        for fi in mod.all_funcs.values():
+            compiled = set()
+            for a in ast.walk(fi.node):
+                if isinstance(a, ast.Assign) and len(a.targets) == 1 and isinstance(a.targets[0], ast.Name) and isinstance(a.value, ast.Call) and ast.unparse(a.value.func) == "re.compile":
+                    compiled.add(a.targets[0].id)
+            for c in calls_in(fi.node):
+                if not (isinstance(c.func, ast.Attribute) and c.func.attr in ("match", "search", "fullmatch", "findall", "finditer")):
+                    continue
+                recv = c.func.value
+                is_glob_regex = (isinstance(recv, ast.Call) and ast.unparse(recv.func) == "re.compile" and recv.args and "regex" in ast.unparse(recv.args[0]).lower()) \
+                    or (isinstance(recv, ast.Name) and recv.id in compiled) or ast.unparse(recv) == "self._regex"
+                if not is_glob_regex:
+                    continue
+                n += 1
+                ctx.check(c.func.attr == "fullmatch", fi.fq, f"{ast.unparse(c.func)}(...)", f"a registration's regex is applied with {c.func.attr}: a path that merely starts with (or contains) a match counts as matching here but not for the matcher that scanned the file system", "fullmatch", where=ctx.where_of(fi, c))
+    if n < 3:
+        raise AnalysisError(f"only {n} applications of a glob regex found (3 confirmed by hand)")
 
 
 def rule_scan_flags(ctx):
@@ -177,12 +196,13 @@ def rule_incremental(ctx):
 RULES = [
     Rule("R-C17-1", "token exhaustiveness", rule_tokens, min_instances=15),
     Rule("R-C17-2", "the two neighbour mergers agree", rule_mergers, min_instances=24),
-    Rule("R-C17-3", "one matcher per registration", rule_one_matcher, min_instances=10),
+    Rule("R-C17-3", "one matcher per registration", rule_one_matcher, min_instances=11),
     Rule("R-C17-4", "scan flags", rule_scan_flags, min_instances=2),
     Rule("R-C17-5", "incremental update order", rule_incremental, min_instances=5),
 ]
 
 MUTANTS = [
+    Mutant("product-check-prefix-match", "workflow.py", in_function("Workflow._raise_if_glob_match", replace_once("re.compile(regex).fullmatch(path)", "re.compile(regex).match(path)")), ("R-C17-3",)),
     Mutant("hidden-skipped", "nglob.py", in_function("NamedGlob.glob", replace_once("include_hidden=True", "include_hidden=False")), ("R-C17-4",)),
     Mutant("rescan-without-subs", "startup.py", replace_once("new_ng = NamedGlob(old_ng.pattern, old_ng.subs)", "new_ng = NamedGlob(old_ng.pattern)"), ("R-C17-3",)),
     Mutant("regex-without-subs", "step.py", in_function("Step.add_nglob", replace_once("convert_nglob_to_regex(ng.pattern, ng.subs)", "convert_nglob_to_regex(ng.pattern)")), ("R-C17-3",)),
